@@ -48,20 +48,35 @@ class Ctx:
 
 
 def run_rules(repo: Repo, names: List[str]) -> List[Ob]:
+    """run the rules; a rule that cannot give a verdict (AnalysisError) aborts the run unless another
+    rule already refutes the property -- then the violations are reported and the error is kept as a note"""
     ctx = Ctx(repo)
     obs: List[Ob] = []
+    errors: List[str] = []
     for nm in names:
         r = RULES[nm]
-        got = r["fn"](ctx)
-        for o in got:
-            if o.rule != nm and not o.rule.startswith(nm):
-                o.rule = nm
-        if len(got) < r["min"]:
-            raise AnalysisError(
-                f"rule {nm}: {len(got)} instances found, {r['min']} confirmed by hand "
-                f"-- the rule would pass vacuously")
+        try:
+            got = r["fn"](ctx)
+            for o in got:
+                if o.rule != nm and not o.rule.startswith(nm):
+                    o.rule = nm
+            if len(got) < r["min"]:
+                raise AnalysisError(
+                    f"rule {nm}: {len(got)} instances found, {r['min']} confirmed by hand "
+                    f"-- the rule would pass vacuously")
+        except AnalysisError as e:
+            errors.append(f"{nm}: {e}")
+            continue
         obs += got
+    if errors and not any(not o.ok for o in obs):
+        raise AnalysisError("; ".join(errors))
+    run_rules.last_errors = errors
+    run_rules.last_ctx = ctx
     return obs
+
+
+run_rules.last_errors = []
+run_rules.last_ctx = None
 
 
 def load_known() -> List[dict]:
@@ -172,6 +187,15 @@ def check_property(pid: str, spec: dict, root: str, tier: str, seed: int,
     }
     if st is not None:
         cov["selftest"] = st
+    if run_rules.last_errors:
+        cov["analysis_errors_next_to_violations"] = run_rules.last_errors
+        for e in run_rules.last_errors:
+            print(f"ANALYSIS-ERROR (next to violations) property={pid} {e}")
+    lc = run_rules.last_ctx
+    if lc is not None:
+        for k in ("unclassified_callees", "U", "exit_states"):
+            if k in lc.notes:
+                cov[k] = lc.notes[k]
     ev = {
         "property_id": pid, "tier": tier, "seed": seed, "level": "other",
         "coverage": cov, "assumptions": ASSUMPTIONS + spec.get("assumptions", []),
